@@ -313,6 +313,7 @@ pub fn run_c08(ctx: &mut Ctx) {
          the peer sends whole records, and after a query withholds every further record until the reply record reached it; all groupings of neighbouring records into reads; handler family; write-side readiness patterns. \
          Executor polls the task only when woken. Failing history = task unfinished, not runnable, peer still waiting for a reply. Non-trivial: all; distinct by case");
     let mut rng = ctx.rng.fork();
+    crate::exec::witness_corpus(&["C08_"], &mut log, &mut im, &mut or);
     // corpus first: minimised past failures (each case names the reply record the peer must receive)
     let corpus = std::path::Path::new(env!("CARGO_MANIFEST_DIR")).join("../corpus/C08.txt");
     if let Ok(text) = std::fs::read_to_string(&corpus) {
